@@ -124,6 +124,15 @@ def gen_specs(run):
                 return False
             x["witness"][0], x["witness"][1] = x["witness"][1], x["witness"][0]
         variant("openings swapped", False, swap)
+        # the prover's decision does not depend on the random-number generator it is handed: the invalid cases again under generators that return
+        # zeros, one byte, a short period (with the scripted generator of the model those runs are ordinary; a prover deciding with drawn weights is not)
+        faulty = [{"kind": "zero"}, {"kind": "const", "byte": 0x5a}, {"kind": "period", "bytes": "01ff"}]
+        for ci_, (tag, x, valid) in enumerate(list(cases)):
+            if not valid or tag == "valid":
+                for fr in (faulty if not quick else [faulty[(sid + ci_) % 3], faulty[0]]):
+                    y = copy.deepcopy(x)
+                    y["rng"] = dict(fr)
+                    cases.append((f"{tag} [rng={fr['kind']}]", y, valid))
         for tag, x, valid in cases:
             specs.append({"id": f"c06-{sid}", "group": "ristretto" if (sid % 7 == 3 and b * m <= 64) else "fm", "members": [x],
                           "verifies": [{"mode": "VerifyOnly", "vmembers": [gen.vmember(x, 0)], "log": False}],
